@@ -70,10 +70,23 @@ func c20run(root string, entries []c20entry) (sig, what, outcome string) {
 		if st, err := os.Lstat(p); err == nil && st.IsDir() {
 			return "", "", "skip"
 		}
-		if err := os.WriteFile(p, []byte("#!/bin/sh\n"), e.mode); err != nil {
-			return "", "", "skip"
+		if e.mode&os.ModeSymlink != 0 {
+			// the entry is a symbolic link to an executable kept outside the hooks directory (the way
+			// kubelet lays out ConfigMap / Secret volumes): a file that carries an execute bit
+			target := filepath.Join(base, "targets", strings.ReplaceAll(e.rel, "/", "_"))
+			_ = os.MkdirAll(filepath.Dir(target), 0o755)
+			if err := os.WriteFile(target, []byte("#!/bin/sh\n"), 0o755); err != nil {
+				return "", "", "skip"
+			}
+			if err := os.Symlink(target, p); err != nil {
+				return "", "", "skip"
+			}
+		} else {
+			if err := os.WriteFile(p, []byte("#!/bin/sh\n"), e.mode); err != nil {
+				return "", "", "skip"
+			}
+			_ = os.Chmod(p, e.mode)
 		}
-		_ = os.Chmod(p, e.mode)
 		if c20isHook(e) {
 			want = append(want, e.rel)
 		}
@@ -120,7 +133,7 @@ func TestVerifC20a(t *testing.T) {
 	defer r.Finish()
 	dirs := []string{"sub", "lib", ".hid", "x.d"}
 	files := []string{"h", "h.sh", ".h", "c.yaml", "c.json", "r.md", "n.txt", "lib"}
-	modes := []os.FileMode{0o644, 0o755, 0o700, 0o010, 0o001}
+	modes := []os.FileMode{0o644, 0o755, 0o700, 0o010, 0o001, os.ModeSymlink | 0o755}
 	var paths []string
 	paths = append(paths, files...)
 	for _, d := range dirs {
